@@ -36,7 +36,7 @@ ASSUMPTIONS = [
     "instants are naive wall-clock microsecond counts; a tz-aware datetime enters the code only through its wall-clock fields",
     "Decimal(minute)/60 + Decimal(second)/3600 (28 significant digits) is modelled by the exact rational; for breakpoints "
     "that are ints/floats (dyadic rationals) the comparison is the same (gap >= 6e-20 unless equal, and equal cases are exact in Decimal)",
-    "simulation periods are whole minutes (timedelta(minutes=p) = 60e6*p microseconds)",
+    "simulation periods are whole minutes (timedelta(minutes=p) = 60e6*p microseconds); the generators use divisors of 60 and, as often, periods that do not divide 60 or exceed it (7, 9, 11, 25, 45, 90, 120)",
     "prices and demand charges are compared exactly; energy_cost / demand_charge (float arithmetic) to 1e-9 relative",
 ]
 TRUSTED_EXTRA = ["tools/dump_tariffs.py (JSON -> Gen/Tariffs.v; expression translator subclass for tuples / mask index / Decimal / timedelta)",
@@ -395,6 +395,8 @@ def case_cost(which, src, start, period, voltages, rates, aware=None, explicit=F
 # generators
 # ------------------------------------------------------------------------------------------------
 AWARE = [None, None, "America/Los_Angeles", "UTC", "Europe/Berlin"]
+# simulation periods in whole minutes: divisors of 60, and (as often) periods that do not divide 60 or exceed it
+SIM_PERIODS = [1, 5, 5, 15, 60, 12, 7, 9, 25, 45, 90, 7, 25, 45, 120, 11]
 
 
 def at(y, m, d, sod=0, us=0):
@@ -584,7 +586,7 @@ def live_cases(rng, names):
     src = ("b", rng.choice(names))
     T, _ = load_impl(src)
     docs = bundled_docs(src[1])
-    period = rng.choice([1, 5, 15, 60])
+    period = rng.choice(SIM_PERIODS)
     start = boundary_instant(rng, docs) // US * US - rng.choice([0, 1, 2, 3]) * period * 60 * US
     aware = rng.choice(AWARE)
     voltages = [rng.choice([208.0, 240.0, 277.0]) for _ in range(rng.randint(1, 3))]
@@ -651,11 +653,11 @@ def bundled_random_case(rng, names):
     if r < 0.50:
         return case_demand(src, t, aware)
     if r < 0.64:
-        period = rng.choice([1, 5, 5, 15, 30, 60, 60, 360, 1440, 7, 10080])
+        period = rng.choice([1, 5, 5, 15, 30, 60, 60, 360, 1440, 7, 10080, 9, 25, 45, 90, 11])
         n = rng.choice([0, 1, 2, 5, 12, 24, 48, 100])
         return case_tariffs(src, t, n, period, aware)
     if r < 0.80:
-        period = rng.choice([1, 5, 5, 15, 60])
+        period = rng.choice(SIM_PERIODS)
         it = rng.randint(0, 3000)
         n = rng.choice([0, 1, 3, 12, 36])
         st = rng.choice([None, None, 0, it, rng.randint(0, 5000), it + rng.randint(1, 50)])
@@ -663,7 +665,7 @@ def bundled_random_case(rng, names):
         if rng.random() < 0.75:
             return case_prices(s, t, period, it, n, st, aware)
         return case_iface_demand(s, t, period, it, st, aware)
-    period = rng.choice([1, 5, 5, 15, 60])
+    period = rng.choice(SIM_PERIODS)
     ns = rng.randint(1, 4)
     ncol = rng.choice([0, 1, 2, 6, 24, 60]) if rng.random() < 0.9 else 0
     voltages = [rng.choice([208.0, 240.0, 120.0, 277.0, 208.5]) for _ in range(ns)]
@@ -750,9 +752,9 @@ def extra_streams(rng, tier):
             elif r < 0.75:
                 cases.append(case_demand(src, t))
             elif r < 0.9:
-                cases.append(case_tariffs(src, t, rng.choice([1, 3, 8, 30]), rng.choice([60, 360, 1440, 5])))
+                cases.append(case_tariffs(src, t, rng.choice([1, 3, 8, 30]), rng.choice([60, 360, 1440, 5, 7, 45, 90])))
             else:
-                cases.append(case_prices(src, t, rng.choice([5, 60]), rng.randint(0, 100), rng.choice([1, 4]), None))
+                cases.append(case_prices(src, t, rng.choice([5, 60, 7, 25, 90]), rng.randint(0, 100), rng.choice([1, 4]), None))
     for c in cases:
         if c["input"].get("src") and c["input"]["src"][0] == "i":
             c["input"]["docs"] = _inline[c["input"]["src"][1]]
